@@ -283,7 +283,8 @@ def report(prop, tier, seed, units, results, findings, wall, meta) -> int:
         for o in r["obls"]:
             solver_secs += o["secs"]
             if o["kind"] == "cover":
-                covers[o["name"]] = covers.get(o["name"], False) or o["verdict"] == "sat"
+                # 'unknown' (solver budget) is not evidence of unreachability: only all-'unsat' is vacuity
+                covers[o["name"]] = covers.get(o["name"], False) or o["verdict"] != "unsat"
                 continue
             n_assert += 1
             unit_of_ob[o["name"]] = r["unit"]
